@@ -184,9 +184,17 @@ DropSmallBlocks(P, O, c) ==
     LET N == Len(P.map)  row == Mat([f \in 1..N |-> RowOf(P, f)])
     IN Mat([f \in 1..N |-> Mat([g \in 1..N |->
             IF \A f2, g2 \in 1..N : (row[f2] = row[f] /\ row[g2] = row[g]) => Abs(O[f2][g2]) <= c THEN 0 ELSE O[f][g]])])
-SplitManyOKOf(M, P) == LET O == OpTensor(M, P)  C == Combine2(P, O)
+\* The tensor without any stored block (all entries 0) is no exception: combine_legs gives the zero tensor over the
+\* two pipes, split_legs the zero tensor over ALL 2n original legs in their original order (shape, legs, labels),
+\* in whatever order the pipes are named; new_axes of combine_legs may be given counted from the end (-2, -1).
+ZeroOp(P) == LET N == Len(P.map) IN Mat([f \in 1..N |-> Mat([g \in 1..N |-> 0])])
+SplitLegsOf(P) == P.legs \o [l \in 1..Len(P.legs) |-> [P.legs[l] EXCEPT !.qconj = -P.legs[l].qconj]]
+SplitManyOKOf(M, P) == LET O == OpTensor(M, P)  C == Combine2(P, O)  Z == ZeroOp(P)
                        IN /\ SplitKetThenBra(P, C) = O /\ SplitBraThenKet(P, C) = O
                           /\ DropSmallBlocks(P, O, 0) = O
+                          /\ SplitKetThenBra(P, Combine2(P, Z)) = Z /\ SplitBraThenKet(P, Combine2(P, Z)) = Z
+                          /\ Len(SplitLegsOf(P)) = 2 * Len(P.legs)
+                          /\ ProdAll([l \in 1..(2 * Len(P.legs)) |-> SumAll(SplitLegsOf(P)[l].sizes)]) = Len(P.map) * Len(P.map)
 
 ------------------------------------------------------------------------------
 (* catalogue profiles.  rates[k] thins the choice of the k-th leg to a seeded 1/rates[k] sample *)
